@@ -37,11 +37,11 @@ MC_QUICK = [
     ("MCDBFTChain.tla", "MC_Chain_h3.cfg"),       # 3 heights
     ("MCDBFTChain.tla", "MC_Chain_lag.cfg"),      # a validator held back meets all the traffic of 2 heights in any order
 ]
-MC_THOROUGH = [
-    ("MCDBFTRec.tla", "MC_Rec_q1.cfg"),           # views 0..1 from the initial state, one backup silent, 1 RecoveryMessage
-    ("MCDBFTRec.tla", "MC_Rec_q1r2.cfg"),         # ... 2 RecoveryMessages
+MC_THOROUGH = [   # longest first: three run side by side
     ("MCDBFTRec.tla", "MC_Rec_v1r2.cfg"),         # from the view-1 state, two requesters, 2 RecoveryMessages
     ("MCDBFTChain.tla", "MC_Chain_all.cfg"),      # 2 heights, nobody silent: every interleaving of four validators
+    ("MCDBFTRec.tla", "MC_Rec_q1r2.cfg"),         # views 0..1 from the initial state, one backup silent, 2 RecoveryMessages
+    ("MCDBFTRec.tla", "MC_Rec_q1.cfg"),           # ... 1 RecoveryMessage
     ("MCDBFTChain.tla", "MC_Chain_lag3.cfg"),     # the held-back validator over 3 heights
 ]
 # named deviations: (module, cfg, properties one of which TLC has to report)
@@ -109,6 +109,8 @@ def _schedules(ctx, module, cfg, num, depth, keep, seed, prefer=()):
     ctx.extra.setdefault("recovery_goal_hits", {}).update({g: len(v) for g, v in goals.items()})
     out = []
     for g, hs in sorted(goals.items()):
+        if len(hs) > 600:      # the prefix filter below is quadratic
+            hs = random.Random(ctx.seed).sample(hs, 600)
         hs.sort(key=len)
         uniq = []
         for x in hs:
@@ -124,7 +126,7 @@ def run_ext(ctx):
     # 1. exhaustive: Impl => Abstract within the small configurations
     _mc_parallel(ctx, MC_QUICK, timeout=1800, par=4)
     if not q:
-        _mc_parallel(ctx, MC_THOROUGH, timeout=5400, par=2)
+        _mc_parallel(ctx, MC_THOROUGH, timeout=5400, par=3)
     # 2. non-vacuity: every named deviation is refuted by the abstract level
     _bugs_parallel(ctx, BUGS_QUICK + ([] if q else BUGS_THOROUGH), timeout=900, par=6)
     # 3. schedules: goal-directed random walks of the two models
